@@ -121,3 +121,15 @@ Example C12_example_split_prompt :
   failing_region (lit "pw") "x" (lit "No") [chars "p"; chars "w"; chars "N"; chars "o"] = true /\
   snd (feed_stream current [WFail (lit "pw") "x" (lit "No")] [chars "p"; chars "w"; chars "N"; chars "o"]) = true.
 Proof. vm_compute. repeat split; reflexivity. Qed.
+
+(** The full statements are false of the code as it stands. *)
+Theorem C12_chunk_independent_refuted : ~ C12_chunk_independent_statement current.
+Proof.
+  intros H. destruct current_refuted_straddle as (p & r & chunks & _ & N). apply N, H.
+Qed.
+
+Theorem C12_failing_sentinel_refuted : ~ C12_failing_sentinel_statement current.
+Proof.
+  intros H. destruct current_refuted_tried as (p & r & s & chunks & _ & _ & _ & _ & T & M & _).
+  rewrite H, M in T. discriminate.
+Qed.
